@@ -304,6 +304,36 @@ static void c19_hostport_ctor(const std::string& host, int port, const std::stri
     g_distinct.add("hp:" + cls + ":" + std::to_string(fnv(host) % 512));
     end_case();
 }
+// an address built from an IP object (four octets / eight groups, any(), loopback()) and a port: host(), family(), port() are those of the
+// numbers given, and the printed text parses back to an equal address (the text form is what the property is about; the IP object is
+// the other way to obtain one); also the (const char*) constructor, which has to behave like the std::string one
+static void c19_from_ip(Rng& r) {
+    bool v6 = r.chance(1, 2); int port = (int)r.below(65536);
+    std::string want; IP ip;
+    int w = r.range(0, 9);
+    if (!v6) { uint8_t o[4]; for (auto& x : o) x = (uint8_t)(r.chance(1, 4) ? (r.chance(1, 2) ? 0 : 255) : r.below(256)); if (w == 0) { ip = IP::any(); want = "0.0.0.0"; } else if (w == 1) { ip = IP::loopback(); want = "127.0.0.1"; } else if (w == 2) { ip = IP::any(false); want = "0.0.0.0"; } else if (w == 3) { ip = IP::loopback(false); want = "127.0.0.1"; }
+        else { ip = IP(o[0], o[1], o[2], o[3]); want = std::to_string(o[0]) + "." + std::to_string(o[1]) + "." + std::to_string(o[2]) + "." + std::to_string(o[3]); } }
+    else { uint16_t g[8]; for (auto& x : g) x = (uint16_t)(r.chance(1, 3) ? 0 : r.chance(1, 6) ? 0xffff : r.below(65536)); if (w == 0) { ip = IP::any(true); for (auto& x : g) x = 0; } else if (w == 1) { ip = IP::loopback(true); for (auto& x : g) x = 0; g[7] = 1; } else ip = IP(g[0], g[1], g[2], g[3], g[4], g[5], g[6], g[7]);
+        unsigned char raw[16]; for (int i = 0; i < 8; i++) { raw[2 * i] = (unsigned char)(g[i] >> 8); raw[2 * i + 1] = (unsigned char)(g[i] & 0xff); } char buf[INET6_ADDRSTRLEN]; inet_ntop(AF_INET6, raw, buf, sizeof buf); want = buf; }
+    std::string cls = v6 ? "from-ip-v6" : "from-ip-v4";
+    BEGIN("addr-from-ip", cls, want + " port " + std::to_string(port));
+    std::string host, printed; int gp = -1, fam = -1;
+    Thrown t = guarded([&] { Address a(ip, Port((uint16_t)port)); host = a.host(); gp = a.port(); fam = a.family(); printed = addr_print(a); });
+    if (t.any) viol("c19:from-ip:" + cls + ":throw", "Address(IP, Port) threw " + t.type + ": " + t.what);
+    else {
+        if (host != want) viol("c19:from-ip:" + cls + ":host", "host() = '" + host + "' want '" + want + "'");
+        if (gp != port) viol("c19:from-ip:" + cls + ":port", "port() = " + std::to_string(gp) + " want " + std::to_string(port));
+        if (fam != (v6 ? AF_INET6 : AF_INET)) viol("c19:from-ip:" + cls + ":family", "family() wrong");
+        std::string h2; int p2 = -1, f2 = -1;
+        Thrown t2 = guarded([&] { Address b(printed.c_str()); h2 = b.host(); p2 = b.port(); f2 = b.family(); });
+        if (t2.any) viol(std::string("c19:print:") + (v6 ? "v6" : "v4") + ":unparsable", "printed form '" + printed + "' of an address built from an IP object is rejected: " + t2.what);
+        else if (h2 != host || p2 != gp || f2 != fam) viol(std::string("c19:print:") + (v6 ? "v6" : "v4") + ":differs", "printed form '" + printed + "' parses to another address (" + h2 + " port " + std::to_string(p2) + ")");
+    }
+    g_distinct.add("fromip:" + cls + ":" + std::to_string(fnv(want) % 2048));
+    count("addr_from_ip_object");
+    maybe_sample("addr-from-ip", want + " port " + std::to_string(port), "printed " + printed);
+    end_case();
+}
 static void c19_observe(const std::string& text, const std::string& cls) {
     BEGIN("addr-observe", cls, text);
     Thrown t = guarded([&] { Address a(text); (void)a.host(); });
@@ -332,6 +362,7 @@ static void run_c19(long cases) {
     long n = cases;
     for (long i = 0; i < n; i++) {
         int kind = r.range(0, 9);
+        if (r.chance(1, 12)) { c19_from_ip(r); continue; }
         if (kind <= 1) {  // random dotted quad
             int a = r.range(0, 255), b = r.range(0, 255), c = r.range(0, 255), d = r.range(0, 255);
             if (r.chance(1, 8)) { a = r.pick(std::vector<int>{0, 1, 9, 10, 99, 100, 199, 200, 249, 250, 255}); }
